@@ -389,7 +389,7 @@ fn canon_hardened(s: &str) -> String {
     let mut out = String::new();
     for i in 0..b.len() {
         let prev_ok = i > 0 && (b[i - 1].is_ascii_digit() || b[i - 1] == '*');
-        let next_ok = i + 1 == b.len() || b[i + 1] == '/' || b[i + 1] == ']';
+        let next_ok = i + 1 == b.len() || matches!(b[i + 1], '/' | ']' | ';' | '>' | ')' | ',' | '#');
         let in_path = s[..i].contains('/');
         if b[i] == 'h' && prev_ok && next_ok && in_path {
             out.push('\'');
@@ -398,6 +398,82 @@ fn canon_hardened(s: &str) -> String {
         }
     }
     out
+}
+
+/// Secret key expressions: xprv / tprv / WIF x origins x derivation steps x wildcards, and whole
+/// descriptors with secrets through parse_descriptor / to_string_with_secret.
+fn secret_key_roundtrip(rep: &Report, cen: &mut Census) {
+    use miniscript::descriptor::DescriptorSecretKey;
+    let xprv = bitcoin::bip32::Xpriv::new_master(bitcoin::Network::Bitcoin, &[7u8; 32]).unwrap().to_string();
+    let tprv = bitcoin::bip32::Xpriv::new_master(bitcoin::Network::Testnet, &[8u8; 32]).unwrap().to_string();
+    let wif = bitcoin::PrivateKey::new(bitcoin::secp256k1::SecretKey::from_slice(&[9u8; 32]).unwrap(), bitcoin::Network::Bitcoin).to_wif();
+    let origins = ["", "[d34db33f]", "[d34db33f/44'/0'/0']", "[d34db33f/0/1h/2147483647']"];
+    let steps = ["", "/0", "/2147483647", "/0'", "/1h", "/0/1", "/1'/0/2", "/<0;1>", "/<0;1;2>", "/0'/<1;2>", "/<0';1>/3"];
+    let wild = ["", "/*", "/*'", "/*h"];
+    let mut strings = vec![];
+    for o in origins {
+        strings.push(format!("{}{}", o, wif));
+        for x in [&xprv, &tprv] {
+            for st in steps {
+                for w in wild {
+                    strings.push(format!("{}{}{}{}", o, x, st, w));
+                }
+            }
+        }
+    }
+    let secp = secp256k1::Secp256k1::new();
+    for s in strings {
+        bump(cen, "secret_key_strings");
+        let mut viol = |class: &str, what: String| {
+            rep.violation(Violation {
+                key: format!("C10|secret-key-{}|{}", class, s),
+                class: format!("descriptor-secret-key-{}", class),
+                what,
+                case: json!({"key": s}),
+            });
+        };
+        match guard(|| DescriptorSecretKey::from_str(&s)) {
+            Ok(Ok(k)) => {
+                bump(cen, "secret_key_strings_parsed");
+                let shown = k.to_string();
+                match guard(|| DescriptorSecretKey::from_str(&shown)) {
+                    Ok(Ok(k2)) => {
+                        if k2.to_string() != shown {
+                            viol("reformat", format!("'{}' re-displays as '{}'", shown, k2));
+                        }
+                        // the secret key type has no Eq: compare the public images and the canonical spelling
+                        let same_spelling = canon_hardened(&shown) == canon_hardened(&s);
+                        let p1 = guard(|| k.to_public(&secp).map(|p| p.to_string()).map_err(|e| e.to_string()));
+                        let p2 = guard(|| k2.to_public(&secp).map(|p| p.to_string()).map_err(|e| e.to_string()));
+                        if p1 != p2 {
+                            viol("reparse-differs", format!("public image of parse(display(k)) differs: {:?} vs {:?}", p2, p1));
+                        } else if !same_spelling {
+                            viol("display-spelling", format!("display '{}' is not the input '{}' up to the hardened marker", shown, s));
+                        } else {
+                            bump(cen, "secret_key_roundtrips_ok");
+                        }
+                    }
+                    Ok(Err(e)) => viol("reparse-fails", format!("'{}': {}", shown, e)),
+                    Err(e) => viol("reparse-panics", e),
+                }
+                // inside a descriptor: parse_descriptor + to_string_with_secret
+                if !s.contains('<') {
+                    let ds = format!("wsh(pk({}))", s);
+                    if let Ok(Ok((d, km))) = guard(|| Descriptor::<DescriptorPublicKey>::parse_descriptor(&secp, &ds)) {
+                        let back = d.to_string_with_secret(&km);
+                        let body = back.split('#').next().unwrap().to_string();
+                        if canon_hardened(&body) != canon_hardened(&ds) {
+                            viol("descriptor-with-secret", format!("to_string_with_secret gives '{}' for '{}'", body, ds));
+                        } else {
+                            bump(cen, "descriptors_with_secret_ok");
+                        }
+                    }
+                }
+            }
+            Ok(Err(_)) => bump(cen, "secret_key_strings_refused"),
+            Err(p) => viol("parse-panics", p),
+        }
+    }
 }
 
 fn key_roundtrip(rep: &Report, cen: &mut Census) {
@@ -800,6 +876,7 @@ pub fn run(tier: Tier) -> i32 {
     let strings = desc_roundtrip(&rep, &mut cen);
     policy_roundtrip(&rep, &mut cen, tier);
     key_roundtrip(&rep, &mut cen);
+    secret_key_roundtrip(&rep, &mut cen);
     let (cs_evals, patterns) = checksum_checks(&rep, &mut cen, &strings, tier);
     rep.merge_counts(&cen);
     if let Some(s) = strings.iter().max_by_key(|s| s.len()) {
